@@ -352,7 +352,9 @@ func (c *clientHello) parseExtensions() error {
 				if !versions.ReadUint16(&v) {
 					return fmt.Errorf("%w: version", ErrDecodeError)
 				}
-				if v >= 0x0304 {
+				// RFC 8701: GREASE values (0x0A0A, 0x1A1A, ..) are not
+				// protocol versions.
+				if v >= 0x0304 && (v&0x0f0f != 0x0a0a || v>>8 != v&0xff) {
 					c.tls13 = true
 				}
 			}
